@@ -114,10 +114,13 @@ for _n in ("isnan", "isinf", "isfinite", "isneginf", "isposinf"):
     reg(_U, f"aten::{_n}", unary, special=True)
 reg(_U, "aten::gelu", unary, kw=[("approximate=omitted", lambda g, dt: {}), ("approximate=none", lambda g, dt: {"approximate": "none"}),
                                  ("approximate=tanh", lambda g, dt: {"approximate": "tanh"})])
-reg(_U, "aten::elu", unary, extra=[("defaults", lambda g, dt: []), ("alpha", lambda g, dt: [g.r.choice((0.5, 2.0))]),
-                                   ("alpha-scale-input_scale", lambda g, dt: [g.r.choice((0.5, 2.0)), 1.5, 0.5])])
+reg(_U, "aten::elu", unary, extra=[("defaults", lambda g, dt: []), ("alpha", lambda g, dt: [g.r.choice((0.5, 2.0))])])
+reg("unary_elu_pos", "aten::elu", unary, dom="pos", extra=[("alpha-scale-input_scale/positive-input", lambda g, dt: [g.r.choice((0.5, 2.0)), 1.5, 0.5]),
+                                                          ("alpha-scale/positive-input", lambda g, dt: [g.r.choice((0.5, 2.0)), 1.5])])
+reg("unary_elu_neg", "aten::elu", unary, dom="neg", extra=[("alpha-scale-input_scale/negative-input", lambda g, dt: [g.r.choice((0.5, 2.0)), 1.5, 0.5]),
+                                                          ("alpha-scale/negative-input", lambda g, dt: [g.r.choice((0.5, 2.0)), 1.5])])
 reg(_U, "aten::celu", unary, extra=[("alpha=omitted", lambda g, dt: []), ("alpha", lambda g, dt: [g.r.choice((0.5, 2.0))])])
-reg(_U, "aten::leaky_relu", unary, extra=[("slope=omitted", lambda g, dt: []), ("slope", lambda g, dt: [g.r.choice((0.2, 0.5, 2.0))])])
+reg(_U, "aten::leaky_relu", unary, extra=[("slope=omitted", lambda g, dt: []), ("slope=0.2", lambda g, dt: [0.2]), ("slope=f32-exact", lambda g, dt: [g.r.choice((0.5, 2.0))])])
 reg(_U, "aten::softplus", unary, extra=[("defaults", lambda g, dt: []), ("beta", lambda g, dt: [2.0]), ("beta-threshold", lambda g, dt: [0.5, 1.0])])
 reg(_U, "aten::hardtanh", unary, extra=[("defaults", lambda g, dt: []), ("min-max", lambda g, dt: [-0.5, 2.0] if is_float(dt) else [-1, 2])])
 reg(_U, "aten::round.decimals", unary, dom="nonint", kw=[("decimals=0", lambda g, dt: {"decimals": 0}), ("decimals=1", lambda g, dt: {"decimals": 1}),
@@ -143,7 +146,7 @@ def binary(qn, dom=("any", "any"), kw=None, only=None, tensor_rhs=True, py_rhs=T
     kw: list of (label, builder(g, dt) -> kwargs); tail: list of (label, builder -> extra positional args)."""
     da, db = dom
     if qn.startswith("prims::"):
-        py_rhs = py_lhs = False  # prims take tensors only
+        py_rhs = py_lhs = False  # prims take tensors only (and of one shape: no broadcast strata below)
     dts = [d for d in adm(qn, 0 if tensor_lhs else 1) if only is None or d in only]
     variants = [("", lambda g, dt: [], lambda g, dt: {})]
     if kw:
@@ -157,7 +160,7 @@ def binary(qn, dom=("any", "any"), kw=None, only=None, tensor_rhs=True, py_rhs=T
                     sh = g.shape("nd")
                     return [g.t(sh, dt, da), g.t(sh, dt, db)] + tb(g, dt), kb(g, dt)
                 yield S(f"{vl}same-shape/{dt}", b_same, scale=scale)
-            for dt in lead(dts):
+            for dt in (lead(dts) if not qn.startswith("prims::") else []):
                 def b_bc(g, dt=dt, tb=tb, kb=kb):
                     sa, sb = g.bcast_pair()
                     return [g.t(sa, dt, da), g.t(sb, dt, db)] + tb(g, dt), kb(g, dt)
@@ -169,6 +172,9 @@ def binary(qn, dom=("any", "any"), kw=None, only=None, tensor_rhs=True, py_rhs=T
                     sa, sb = g.r.choice([([0], [0]), ([2, 0], [2, 0]), ([0, 3], [1, 3]), ([2, 0, 3], [3]), ([0], [])])
                     return [g.t(sa, dt, da), g.t(sb, dt, db)] + tb(g, dt), kb(g, dt)
                 yield S(f"{vl}size0/{dt}", b_e, scale=scale)
+            for dt in (lead(dts) if qn.startswith("prims::") else []):
+                yield S(f"{vl}0-d-both/{dt}", (lambda g, dt=dt, tb=tb, kb=kb: ([g.t([], dt, da), g.t([], dt, db)] + tb(g, dt), kb(g, dt))), scale=scale)
+                yield S(f"{vl}size0/{dt}", (lambda g, dt=dt, tb=tb, kb=kb: ([g.t([2, 0], dt, da), g.t([2, 0], dt, db)] + tb(g, dt), kb(g, dt))), scale=scale)
         if tensor_lhs and py_rhs:
             for dt in lead(dts):
                 kinds = ["int"] if not is_float(dt) else ["int", "float"]
@@ -209,7 +215,22 @@ reg(_B, "aten::div.Scalar_mode", binary, dom=("any", "nz"), kw=_MODES, tensor_rh
 reg(_B, ["aten::floor_divide", "aten::fmod.Tensor", "aten::remainder.Tensor", "prims::remainder"], binary, dom=("any", "nz"))
 reg(_B, ["aten::fmod.Scalar", "aten::remainder.Scalar"], binary, dom=("any", "nz"), tensor_rhs=False)
 reg(_B, "aten::remainder.Scalar_Tensor", binary, dom=("any", "nz"), tensor_lhs=False, py_rhs=False, py_lhs=True)
-reg(_B, ["aten::atan2", "aten::logaddexp", "aten::logaddexp2"], binary, dom=("small", "small"), py_rhs=False)
+reg(_B, ["aten::logaddexp", "aten::logaddexp2"], binary, dom=("small", "small"), py_rhs=False)
+reg(_B, "aten::atan2", binary, dom=("nz", "nz"), py_rhs=False)
+
+
+def atan2_axes(qn):
+    """points on the axes (atan2(0, x<0) = pi, atan2(0, 0) = 0, atan2(y, 0) = +-pi/2) live in their own strata."""
+    E = core.env()
+    for dt in [d for d in adm(qn) if is_float(d)]:
+        T = lambda v, dt=dt: E.torch.tensor(v, dtype=E.tdt[dt])
+        yield S(f"y=0-x<0/{dt}", (lambda g, T=T: ([T([0.0, 0.0, 0.0]), T([-0.5, -2.0, -1.0])], {})))
+        yield S(f"y=0-x>0/{dt}", (lambda g, T=T: ([T([0.0, 0.0]), T([0.5, 2.0])], {})))
+        yield S(f"y!=0-x=0/{dt}", (lambda g, T=T: ([T([1.5, -0.5]), T([0.0, 0.0])], {})))
+        yield S(f"y=0-x=0/{dt}", (lambda g, T=T: ([T([0.0]), T([0.0])], {})))
+
+
+reg("binary_axes", "aten::atan2", atan2_axes)
 reg(_B, "aten::xlogy.Tensor", binary, dom=("any", "pos"), py_rhs=False)
 reg(_B, "aten::xlogy.Scalar_Other", binary, dom=("any", "pos"), tensor_rhs=False)
 reg(_B, "aten::xlogy.Scalar_Self", binary, dom=("any", "pos"), tensor_lhs=False, py_rhs=False, py_lhs=True)
@@ -304,7 +325,14 @@ def isclose(qn):
             a = g.t(sh, dt, "small")
             return [a, a + 0.25, 0.5, 0.125], {}
         yield S(f"rtol-atol/{dt}", b2)
-        yield S(f"equal_nan/{dt}", (lambda g, dt=dt: ([g.t([4], dt, "special"), g.t([4], dt, "special"), 1e-5, 1e-8, True], {})))
+        def b3(g, dt=dt, en=True):
+            E = core.env()
+            nan, inf = float("nan"), float("inf")
+            a = E.torch.tensor([nan, nan, 1.0, inf, -inf, inf], dtype=E.tdt[dt])
+            bb = E.torch.tensor([nan, 1.0, nan, inf, -inf, -inf], dtype=E.tdt[dt])
+            return [a, bb, 1e-5, 1e-8, en], {}
+        yield S(f"equal_nan=True-nan-inf/{dt}", b3)
+        yield S(f"equal_nan=False-nan-inf/{dt}", (lambda g, b3=b3: b3(g, en=False)))
         yield S(f"0-d/{dt}", (lambda g, dt=dt: ([g.t([], dt, "small"), g.t([], dt, "small")], {})))
         yield S(f"size0/{dt}", (lambda g, dt=dt: ([g.t([0, 2], dt, "small"), g.t([0, 2], dt, "small")], {})))
 
@@ -392,11 +420,15 @@ def reduction(qn, dimtype, keepdim=True, dtype_kw=False, dom="any", mode="value"
     def mk(dt, dimclass, kd, shapeclass, dkw=None, omit_kd=False):
         def b(g):
             shape, ax = _red_shape(g, shapeclass)
+            if shapeclass == "n-by-3":
+                shape, ax = [g.r.randint(2, 4), 3], 1
             if maxel:
                 while _numel(shape) > maxel:
                     shape[shape.index(max(shape))] -= 1
             rank = len(shape)
             x = g.t(shape, dt, dom)
+            if shapeclass == "n-by-3" and dt != "bool":
+                x[0] = core.env().torch.tensor([1, 0, 0], dtype=x.dtype)  # a row whose mean (1/3) is inexact in every float type
             args = [x] + (pre(g, dt) if pre else [])
             if dimclass is not None:
                 dc = dimclass
@@ -443,9 +475,9 @@ def reduction(qn, dimtype, keepdim=True, dtype_kw=False, dom="any", mode="value"
                 if is_float(dt) and not is_float(dk):
                     continue  # float -> int casts of non-integral values are not generated
                 dc = None if dimtype is None else "-1"
-                yield S(f"dtype={dk}/dim={dc}/nd/{dt}", mk(dt, dc, 0, "nd", dkw=dk), mode=mode, scale=scale)
-            yield S(f"dtype=None/dim={'full' if dimtype is None else '-1'}/nd/{dt}",
-                    (lambda g, dt=dt: (lambda a: (a[0], {"dtype": None}))(mk(dt, None if dimtype is None else "-1", 0, "nd")(g))), mode=mode, scale=scale)
+                yield S(f"dtype={dk}/dim={dc}/n-by-3/{dt}", mk(dt, dc, 0, "n-by-3", dkw=dk), mode=mode, scale=scale)
+            yield S(f"dtype=None/dim={'full' if dimtype is None else '-1'}/n-by-3/{dt}",
+                    (lambda g, dt=dt: (lambda a: (a[0], {"dtype": None}))(mk(dt, None if dimtype is None else "-1", 0, "n-by-3")(g))), mode=mode, scale=scale)
 
 
 _R = "reduce"
@@ -887,7 +919,8 @@ def _reshape_variants(copy=False):
         ("nd", lambda g, dt: (lambda a, b, c: to(g, dt, [a, b, c], g.r.choice(([a * b, c], [a, b * c], [c, b, a], [a * b * c]))))(*g.dims(3, 2, 4))),
         ("minus1", lambda g, dt: (lambda a, b, c: to(g, dt, [a, b, c], g.r.choice(([-1, c], [a, -1], [-1], [a, -1, c]))))(*g.dims(3, 2, 4))),
         ("to-0-d", lambda g, dt: to(g, dt, g.r.choice(([1], [1, 1])), [])),
-        ("from-0-d", lambda g, dt: to(g, dt, [], g.r.choice(([1], [1, 1], [-1])))),
+        ("from-0-d", lambda g, dt: to(g, dt, [], g.r.choice(([1], [1, 1])))),
+        ("from-0-d-minus1", lambda g, dt: to(g, dt, [], [-1])),
         ("0-d-to-0-d", lambda g, dt: to(g, dt, [], [])),
         ("size0-zero-stays-in-place", lambda g, dt: to(g, dt, [2, 0, 3], g.r.choice(([6, 0], [3, 0, 2])))),
         ("size0-zero-moves", lambda g, dt: to(g, dt, [2, 0, 3], g.r.choice(([0, 3], [0], [0, 6])))),
@@ -962,7 +995,8 @@ reg(_V, ["aten::permute", "prims::transpose"], one_tensor, variants=[
     ("nd", lambda g, dt: (lambda s: ([g.t(s, dt), _perm(g, len(s))], {}))(g.dims(g.r.randint(2, 4)))),
     ("negative-dims", lambda g, dt: (lambda s: ([g.t(s, dt), _perm(g, len(s), True)], {}))(g.dims(g.r.randint(2, 4)))),
     ("0-d", lambda g, dt: ([g.t([], dt), []], {})),
-    ("r1", lambda g, dt: ([g.t([4], dt), [g.r.choice((0, -1))]], {})),
+    ("r1", lambda g, dt: ([g.t([4], dt), [0]], {})),
+    ("r1-negative", lambda g, dt: ([g.t([4], dt), [-1]], {})),
     ("size0", lambda g, dt: ([g.t([2, 0, 3], dt), _perm(g, 3)], {})),
     ("identity", lambda g, dt: ([g.t([2, 3], dt), [0, 1]], {})),
 ])
@@ -1321,15 +1355,19 @@ def gather_scatter(qn, kind):
     scatter_reduce.two(self, dim, index, src, reduce, *, include_self)."""
     dts = adm(qn)
 
-    def mk(dt, v, reduce=None, include_self=True, idt="i64"):
+    def mk(dt, v, reduce=None, include_self=True, idt="i64", dup=None):
         def b(g):
             rank = g.r.randint(1, 3)
             shape = g.dims(rank, 2, 4)
             d = g.r.randrange(rank)
+            if v.startswith("src-larger"):
+                rank, shape, d = 2, g.dims(2, 2, 4), (0 if v.endswith("dim=0") else 1)
             dd = d - rank if v == "dim=negative" else (-rank if v == "dim=-rank" else d)
             if v == "dim=-rank":
                 d = 0
             ishape = list(shape)
+            if dup == "dup":
+                ishape[d] = shape[d] + 1  # pigeonhole: at least one index repeats along dim
             if v == "index-smaller":
                 ishape = [max(1, s - 1) for s in shape]
             if v == "index-size0":
@@ -1337,7 +1375,7 @@ def gather_scatter(qn, kind):
             if v == "index-longer-along-dim" and kind == "gather":
                 ishape[d] = shape[d] + 2
             x = g.t(shape, dt, "small" if reduce == "prod" else "any")
-            if kind in ("scatter.src", "scatter.value") or (kind == "scatter_reduce" and reduce is None):
+            if kind in ("scatter.src", "scatter.value") or dup == "nodup":
                 # duplicates make plain scatter nondeterministic: use distinct indices along dim
                 import itertools
 
@@ -1353,7 +1391,7 @@ def gather_scatter(qn, kind):
                 return [x, dd, idx], {}
             if kind == "scatter.value":
                 return [x, dd, idx, g.scalar(dt, "any")], {}
-            src = g.t(ishape if v != "src-larger" else [s + 1 for s in ishape], dt, "small" if reduce == "prod" else "any")
+            src = g.t(ishape if not v.startswith("src-larger") else [s + 1 for s in ishape], dt, "small" if reduce == "prod" else "any")
             if kind == "scatter_reduce":
                 return [x, dd, idx, src, reduce], ({"include_self": include_self} if include_self is not True or g.r.random() < 0.5 else {})
             return [x, dd, idx, src], {}
@@ -1365,15 +1403,16 @@ def gather_scatter(qn, kind):
         for dt in lead(dts, ("f32", "i64")):
             for red in ("sum", "prod", "mean", "amax", "amin"):
                 for inc in (True, False):
-                    yield S(f"reduce={red}/include_self={int(inc)}/{dt}", mk(dt, "plain", red, inc), scale=4.0)
-            for v in ("dim=negative", "dim=-rank", "index-smaller", "index-size0", "src-larger"):
+                    for dup in ("dup", "nodup"):
+                        yield S(f"reduce={red}/include_self={int(inc)}/{dup}/{dt}", mk(dt, "plain", red, inc, dup=dup), scale=4.0)
+            for v in ("dim=negative", "dim=-rank", "index-smaller", "index-size0", "src-larger-dim=0", "src-larger-dim=1"):
                 yield S(f"reduce=amax/{v}/{dt}", mk(dt, v, "amax"), scale=4.0)
             yield S(f"reduce=sum/0-d/{dt}", (lambda g, dt=dt: ([g.t([], dt), 0, g.index([], 1), g.t([], dt), "sum"], {})), scale=4.0)
         return
     for dt in dts:
         yield S(f"plain/{dt}", mk(dt, "plain"), scale=4.0)
     for dt in lead(dts):
-        for v in ["dim=negative", "dim=-rank", "index-smaller", "index-size0"] + (["src-larger"] if kind in ("scatter.src", "scatter_add") else []) + \
+        for v in ["dim=negative", "dim=-rank", "index-smaller", "index-size0"] + (["src-larger-dim=0", "src-larger-dim=1"] if kind in ("scatter.src", "scatter_add") else []) + \
                  (["index-longer-along-dim"] if kind == "gather" else []):
             yield S(f"{v}/{dt}", mk(dt, v), scale=4.0)
         yield S(f"index-i32/{dt}", mk(dt, "plain", idt="i32"), scale=4.0)
